@@ -40,6 +40,7 @@ def setup(ctx):
         "and size within the limit; the literal spelling only for names made of pchar characters without '%'",
         "file *names* (not contents) appearing in error texts are not counted as content leaks",
     ]
+    ctx.require("monitor", "special_file_requests", 10)
     ctx.require("monitor", "responses", 3000)
     ctx.require("monitor", "success_bodies_checked", 500)
     ctx.require("monitor", "attacks_at_outside", 500)
@@ -302,6 +303,99 @@ def run_live(ctx):
         shutil.rmtree(base, ignore_errors=True)
 
 
+def run_special_files(ctx):
+    """Entries inside the root that are neither regular files nor directories (a named pipe with a writer waiting,
+    a socket): a success response carries the content of a REGULAR file - these are answered with a non-success
+    status, without the handler ever opening them (a pipe without data would block the whole server)."""
+    import socket
+    import threading
+
+    from nauyaca.server.handler import StaticFileHandler
+
+    base = tempfile.mkdtemp(prefix="vf-c02s-")
+    try:
+        root = os.path.join(base, "site")
+        os.makedirs(os.path.join(root, "sub"))
+        with open(os.path.join(root, "index.gmi"), "w") as f:
+            f.write("# index\n")
+        with open(os.path.join(root, "sub", "regular.gmi"), "w") as f:
+            f.write("REGULAR-CONTENT\n")
+        fifo = os.path.join(root, "sub", "events.gmi")
+        os.mkfifo(fifo)
+        os.symlink("events.gmi", os.path.join(root, "sub", "link-to-fifo.gmi"))
+        os.makedirs(os.path.join(root, "fifodir"))
+        os.mkfifo(os.path.join(root, "fifodir", "index.gmi"))
+        sockp = os.path.join(root, "sub", "ctl.sock")
+        srv = socket.socket(socket.AF_UNIX)
+        srv.bind(sockp)
+        for listing in (True, False):
+            h = StaticFileHandler(root, enable_directory_listing=listing)
+            for path, what in (("/sub/events.gmi", "fifo"), ("/sub/%65vents.gmi", "fifo-encoded"), ("/sub/link-to-fifo.gmi", "fifo-via-symlink"), ("/fifodir/", "fifo-as-index"),
+                               ("/sub/ctl.sock", "socket"), ("/sub/regular.gmi", "control-regular")):
+                stop = threading.Event()
+                wrote = {"n": 0}
+
+                def writer():
+                    # a process at the other end of the pipe: delivers a line as soon as somebody opens it for reading
+                    targets = [fifo, os.path.join(root, "fifodir", "index.gmi")]
+                    while not stop.is_set():
+                        for t in targets:
+                            try:
+                                fd = os.open(t, os.O_WRONLY | os.O_NONBLOCK)
+                            except OSError:
+                                continue
+                            try:
+                                os.write(fd, b"PIPE-DATA-NOT-A-FILE\n")
+                                wrote["n"] += 1
+                            finally:
+                                os.close(fd)
+                        stop.wait(0.01)
+
+                box = {}
+
+                def call():
+                    try:
+                        box["r"] = h.handle(make_request(path))
+                    except BaseException as e:  # noqa: BLE001
+                        box["e"] = e
+
+                wt = threading.Thread(target=writer, daemon=True)
+                ht = threading.Thread(target=call, daemon=True)
+                wt.start()
+                ht.start()
+                ht.join(3)
+                stop.set()
+                wt.join(1)
+                ctx.count("monitor", "special_file_requests")
+                wit = {"level": "special-files", "path": path, "entry": what, "listing": listing, "pipe_was_opened_for_reading": wrote["n"] > 0}
+                if ht.is_alive():
+                    ctx.violation(f"blocked-on-non-regular:{what}", "the handler blocked on an entry that is not a regular file", wit)
+                    # free the blocked reader
+                    try:
+                        fd = os.open(fifo, os.O_WRONLY | os.O_NONBLOCK)
+                        os.close(fd)
+                    except OSError:
+                        pass
+                    continue
+                r = box.get("r")
+                status = getattr(r, "status", None)
+                wit["status"] = status
+                wit["body"] = (r.body or "")[:40] if r is not None and isinstance(r.body, str) else None
+                if what == "control-regular":
+                    if status != 20 or "REGULAR-CONTENT" not in (r.body or ""):
+                        ctx.violation("unreachable:control-next-to-special-files", "the regular file next to the special entries was not served", wit)
+                elif status is not None and 20 <= status <= 29 and not (what == "fifo-as-index" and listing and "PIPE-DATA" not in (r.body or "")):
+                    ctx.violation(f"non-regular-served:{what}", "a success response was produced from an entry that is not a regular file", wit)
+                elif wrote["n"]:
+                    ctx.violation(f"non-regular-opened:{what}", "the handler opened a named pipe (a pipe without a writer would block the server)", wit)
+                else:
+                    ctx.count("outcome", f"special:{what}:{status}")
+                ctx.case(("special", what, listing, status), True, sample=wit)
+        srv.close()
+    finally:
+        shutil.rmtree(base, ignore_errors=True)
+
+
 def run(ctx):
     rng = ctx.rng("c02")
     n = max(1, ctx.pick(40, 4000) // ctx.nshards)
@@ -309,3 +403,5 @@ def run(ctx):
         run_tree(ctx, rng, i + ctx.shard)
     if ctx.shard == 0:
         run_live(ctx)
+    if ctx.shard == 1 or ctx.nshards == 1:
+        run_special_files(ctx)
